@@ -8,6 +8,7 @@ import Model.Files
 import Model.Params
 import Proofs.Files
 import Proofs.Params
+import Proofs.ParamsHistory
 import Model.ResultsObj
 import Proofs.ResultsObj
 
@@ -281,6 +282,50 @@ theorem unknown_entry_ignored (algos : List String) (ps : List Entry) (sec name 
     (h : find ps (sec, name) = none) : importEntry algos ps sec name tv = .ok ps :=
   importEntry_unknown algos ps sec name tv h
 
+/-- **Histories of one `Parameters` object.**  Start from any parameter set with pairwise
+different keys and admissible values (a fresh `Parameters()`), and apply any sequence of
+`read_file` (complete, incomplete, empty files, files with unknown sections or entries),
+`set_value`, `add_parameter` and `dump_file` — refused `set_value` / `add_parameter` change
+nothing; the history stays in the domain as long as no `read_file` raises and no value of another
+kind than declared is stored.  Then the file written by `dump_file` **now**, read into any object
+with the same parameters (other values), gives every parameter its current value: the document is
+regenerated from the values, whatever document the object was holding. -/
+theorem history_dump_roundtrip (algos : List String) (s0 s : PState) (ops : List POp) (w : Entry → Val)
+    (h0 : (s0.params.map (·.key)).Nodup)
+    (hv0 : ∀ e ∈ s0.params, typeOK e.type e.value = true ∧ admitted algos e e.value = true)
+    (hr : runP algos s0 ops = some s) :
+    importDocument algos (s.params.map fun e => { e with value := w e }) (dumpDoc s) = .ok s.params := by
+  have hg0 : GoodState algos s0 :=
+    ⟨⟨h0, fun e he => (hv0 e he).2⟩, List.all_eq_true.mpr fun e he => (hv0 e he).1⟩
+  have hg := runP_good algos ops s0 s hg0 hr
+  exact file_roundtrip algos s.params w hg.1.1
+    (fun e he => ⟨List.all_eq_true.mp hg.2 e he, hg.1.2 e he⟩)
+
+/-- in particular a parameter changed after an incomplete file was read is in the next dump, and a
+second dump writes the same file as the first -/
+theorem history_value_in_dump (algos : List String) (s0 s : PState) (ops : List POp) (w : Entry → Val)
+    (h0 : (s0.params.map (·.key)).Nodup)
+    (hv0 : ∀ e ∈ s0.params, typeOK e.type e.value = true ∧ admitted algos e e.value = true)
+    (hr : runP algos s0 ops = some s) (e : Entry) (he : e ∈ s.params) :
+    ∃ ps', importDocument algos (s.params.map fun e => { e with value := w e }) (dumpDoc s) = .ok ps' ∧
+      getValue ps' e.key = some e.value ∧
+      runP algos s0 (ops ++ [.dump]) = some ⟨s.params, some (dumpDoc s)⟩ := by
+  have hg0 : GoodState algos s0 :=
+    ⟨⟨h0, fun e he => (hv0 e he).2⟩, List.all_eq_true.mpr fun e he => (hv0 e he).1⟩
+  have hg := runP_good algos ops s0 s hg0 hr
+  refine ⟨s.params, history_dump_roundtrip algos s0 s ops w h0 hv0 hr, ?_, ?_⟩
+  · have := find_mix w (fun _ => true) s.params hg.1.1 e he
+    simp only [mix, ↓reduceIte, List.map_id'] at this
+    simp [getValue, this]
+  · clear hg hg0 h0 hv0 he
+    induction ops generalizing s0 with
+    | nil => simp only [runP] at hr; injection hr with hr; subst hr; rfl
+    | cons op ops ih =>
+      simp only [runP, List.cons_append] at hr ⊢
+      split at hr
+      · rename_i q hq; exact ih q hr
+      · cases hr
+
 /-! ## reports and pickle -/
 
 open Reports
@@ -551,5 +596,13 @@ example :
   ⟨_, rfl, by decide⟩
 
 example : (ResObj.views.map (·.1)).length = 12 ∧ ResObj.allAttrs.length = 57 ∧ ResObj.allAttrs.Nodup := by decide
+
+/-- an (almost) empty file is read, a parameter absent from it is set, a user parameter is added, the
+object is dumped twice: the document holds the current values (not those of the file read) -/
+example :
+    let ps : List Entry := [⟨"A", "x", .bool, .b false, ["is_boolean"]⟩, ⟨"B", "y", .int, .i 5, ["is_integer"]⟩]
+    (runP [] ⟨ps, none⟩ [.read [("A", [("x", .s "yes")]), ("Unknown", [("z", .i 1)])], .set none "y" (.i 7),
+        .add ⟨"U", "y", .int, .i 9, ["is_integer"]⟩, .dump, .set (some "B") "y" (.i 8), .dump]).map dumpDoc
+      = some [("A", [("x", .s "True")]), ("B", [("y", .i 8)]), ("U", [("y", .i 9)])] := by decide
 
 end C14
